@@ -5,6 +5,7 @@ CONSTANTS
   InitSeq <- GInitSeq
   InitTok <- GInitTok
   InitRaw = {"pad"}
+  SubOf <- GSubOf
   HasLF0 <- GLF
   HasAT0 <- GAT
   Slack <- GSlack
